@@ -727,9 +727,15 @@ async fn run_op(sh: &Shared, client: usize, op: Op) {
                   // is refused. The public JWK handed in is the key's own, one time in three with `alg` naming the
                   // other ciphersuite.
                   let (i_start, i_end) = (0usize, data.len() - 1);
+                  // (both timeframe messages replaced, or only one of them: the other keeps its value)
                   let mut new_data = data.clone();
-                  new_data[i_start] = ctx::bytes(8);
-                  new_data[i_end] = ctx::bytes(8);
+                  let which = ctx::choose(4);
+                  if which != 1 {
+                    new_data[i_start] = ctx::bytes(8);
+                  }
+                  if which != 2 {
+                    new_data[i_end] = ctx::bytes(8);
+                  }
                   let upd_ctx = identity_storage::ProofUpdateCtx {
                     old_start_validity_timeframe: data[i_start].clone(),
                     new_start_validity_timeframe: new_data[i_start].clone(),
